@@ -16,7 +16,9 @@ func DebugEval(c *Ctx, pkg, name string) []string {
 	}
 	it := c.W.It
 	var out []string
-	it.Hooks = ai.Hooks{Undecided: func(_ *ai.State, at ssa.Instruction, what string) { out = append(out, "undecided: "+what+" @ "+c.pos(at)) }}
+	it.Hooks = ai.Hooks{Undecided: func(_ *ai.State, at ssa.Instruction, what string) {
+		out = append(out, "undecided: "+what+" @ "+c.pos(at))
+	}}
 	st := it.StateOn(c.W.PkgInitHeap)
 	var args []ai.Value
 	for i, p := range fn.Params {
